@@ -287,6 +287,39 @@ def subclass_search(ctx):
     fdm.FD_RULES.clear()
 
 
+def pairing_after_reconfiguration(ctx):
+    """The rule and its paired Richardson stage on an object that was evaluated and THEN reconfigured through its public attributes
+    (method, order, n, and with n the default step ratio): the weights applied on the next call must be those of the new configuration."""
+    import numdifftools as nd
+    from . import pipe
+    trans = [({'method': 'central'}, {'method': 'forward'}), ({'method': 'central', 'order': 2}, {'order': 4}), ({'n': 1}, {'n': 2}),
+             ({'method': 'forward', 'order': 1}, {'method': 'backward', 'order': 3}), ({'method': 'complex', 'n': 1}, {'n': 3}),
+             ({'method': 'central', 'n': 2, 'order': 4}, {'method': 'complex', 'n': 1, 'order': 2}), ({'method': 'backward'}, {'method': 'central', 'n': 3})]
+    for cls in ('Derivative', 'Jacobian', 'Hessdiag'):
+        for a, b in trans:
+            if cls != 'Derivative' and (a.get('n', 1) > (2 if cls == 'Hessdiag' else 1) or b.get('n', 1) > (2 if cls == 'Hessdiag' else 1) or 'n' in a or 'n' in b):
+                continue
+            f = (lambda x: np.exp(0.5 * x)) if cls == 'Derivative' else (lambda x: np.sum(np.exp(0.5 * x)))
+            x = 0.75 if cls == 'Derivative' else np.array([0.75, -0.5])
+            try:
+                d = getattr(nd, cls)(f, full_output=True, **a)
+                with np.errstate(all='ignore'), warnings.catch_warnings():
+                    warnings.simplefilter('ignore')
+                    d(x)
+                    for k, v in b.items():
+                        setattr(d, k, v)
+                    val, info, rec = pipe.capture_call(d, x)
+            except Exception as ex:   # noqa
+                ctx.brk('correspondence', '%s raised %r after being reconfigured from %r by %r' % (cls, ex, a, b), {'class': cls, 'first': a, 'then': b})
+                continue
+            ctx.count(1, ('reconfigured', cls))
+            bad = pipe.context_certificate(rec)
+            if bad:
+                ctx.violation('pairing', '%s(exp(x/2), %r) evaluated once, then reconfigured by %r: on the next call %s' % (cls, a, b, bad),
+                              {'class': cls, 'first': a, 'then': b, 'x': np.asarray(x).tolist()})
+                return
+
+
 def run(ctx):
     from numdifftools import finite_difference as fdm0
     initial = dict(fdm0.FD_RULES)          # before anything in this process has asked for a rule
@@ -294,6 +327,7 @@ def run(ctx):
     trval.run(ctx)
     tables = model_tables(ctx)
     initial_cache(ctx, tables, initial)
+    pairing_after_reconfiguration(ctx)
     ratios_q = [2.0, 1.6, 1.7320508075688772, 4.0, 1.2, 10.0] + [float(v) for v in ctx.rng(3).uniform(1.05, 10, size=ctx.n(2, 20))]
     nm = moment_tie(ctx, ratios_q[:ctx.n(4, 12)])
     singular = 0
@@ -307,7 +341,7 @@ def run(ctx):
     else:
         subclass_search(ctx)        # cheap, always on: the rule classes of Jacobian / Hessdiag / Hessian
     ctx.assumptions += ['the rule row is an oracle (LAPACK pinv): certified each run against the EXACT inverse of the model\'s moment matrix with the exact condition number; configurations with kappa > 1e13 are numerically singular (excluded by the property) and only counted',
-                        'layers (A), (B), (C) are each proved; their composition (instantiating the abstract sigma/off/st/T of (C) with the table values of (B) and the signatures of (A)) is by inspection of matching statements, not yet a single Coq term',
+                        'layers (A) stencil signatures, (B) regenerated tables, (C) moment-system exactness are joined in ONE closed theorem (Props/C06c.v C06_rule_exact_on_stencil, any field of characteristic 0 containing sqrt(1/2))',
                         'the rounding clause ("up to conditioning-scaled rounding") is the certificate bound 8*u*kappa, not a floating-point proof']
     return ctx.finish(level='proof', checker_cmd='make -C coq Props/C06.vo Props/C06c.vo + coqc build/cases/C06_*.v + trval_*.v',
                       rule='exhaustive translator grid; moment matrix for parity 0..6 x terms 1..6 x ratios; rule() certificate for 4 methods x n,order 1..8(10) x ratio grid; '
